@@ -13,19 +13,19 @@ BLD = "rspirv::dr::build"
 FRESH0 = 1000
 
 
-class BH(progx.InlineHooks):
+class BH(progx.OpHooks):
     def __init__(self, ctx):
-        progx.InlineHooks.__init__(self, ctx)
+        progx.OpHooks.__init__(self, ctx)
         self.insts = []
         self.self_ty = "Builder"
 
     def call(self, p, args, e):
         segs = p.split("::")
         if segs[-2:] == ["Instruction", "new"] and len(args) == 4:
-            v = ("struct", "Instruction", {"class": ("class", args[0]), "result_type": args[1], "result_id": args[2], "operands": args[3]})
+            v = ("struct", "Instruction", {"class": ("struct", "Instruction", {"opcode": args[0], "opname": ("sym", "OPNAME")}), "result_type": args[1], "result_id": args[2], "operands": args[3]})
             self.insts.append(v)
             return v
-        return progx.InlineHooks.call(self, p, args, e)
+        return progx.OpHooks.call(self, p, args, e)
 
     def mcall(self, recv, m, args, e, ev):
         if isinstance(recv, tuple) and recv and recv[0] in ("param", "elem") and m in ("into", "to_string", "to_owned", "clone", "as_ref", "borrow", "as_str"):
@@ -65,6 +65,9 @@ def param_value(name, ty, variant):
     t = ty.replace(" ", "")
     if t.startswith("Option<"):
         return ("some", ("param", name)) if variant == "some" else NONE
+    if t.lstrip("&").replace("mut", "").endswith("Instruction"):
+        return ("struct", "Instruction", {"class": ("struct", "Instruction", {"opcode": ("enum", "Op::TypeVoid", []), "opname": ("str", "TypeVoid")}),
+                                          "result_type": NONE, "result_id": NONE, "operands": ("list", []), "name": "ARGUMENT:" + name})
     if t == "InsertPoint" or t.endswith("::InsertPoint"):
         return ("enum", "InsertPoint::End", [])
     seq = t.startswith(("implAsRef<[", "implIntoIterator<", "Vec<", "&[", "implIterator<"))
@@ -157,7 +160,7 @@ def summarise(ctx, f, base):
     (i1, (loc1, pos1)), (i0, (loc0, pos0)) = placed
     if loc1 != loc0:
         raise Anchor("the instruction goes to %s or %s depending on optional arguments" % (loc1, loc0))
-    op1, op0 = i1[2]["class"][1], i0[2]["class"][1]
+    op1, op0 = i1[2]["class"][2]["opcode"], i0[2]["class"][2]["opcode"]
     if op1 != op0 or not (isinstance(op1, tuple) and op1[0] == "enum" and op1[1].startswith("Op::")):
         raise Anchor("opcode is %s / %s" % (op1, op0))
     s["opcode"] = op1[1].split("::")[-1]
